@@ -519,7 +519,7 @@ def cellValuesWithBoundaries3D(phi, BC):
         k = k_ind
         phiBC[i,j,k]= phi[-1,:,:]
 
-    if (not BC.bottom.periodic) and (not BC.top.periodic):
+    if (not BC.back.periodic) and (not BC.front.periodic):
         # front boundary
         i = i_ind
         j = j_ind
@@ -619,7 +619,7 @@ def cellValuesWithBoundariesCylindrical3D(phi, BC):
         k = k_ind
         phiBC[i,j,k]= phi[-1,:,:]
 
-    if (not BC.bottom.periodic) and (not BC.top.periodic):
+    if (not BC.back.periodic) and (not BC.front.periodic):
         # front boundary
         i = i_ind
         j = j_ind
@@ -778,7 +778,7 @@ def cellValuesWithBoundariesSpherical3D(phi, BC):
         k = k_ind
         phiBC[i,j,k]= phi[-1,:,:]
 
-    if (not BC.bottom.periodic) and (not BC.top.periodic):
+    if (not BC.back.periodic) and (not BC.front.periodic):
         # front boundary
         i = i_ind
         j = j_ind
